@@ -213,12 +213,16 @@ def operand_y(o, key):
             off = "x"
         p = o.post_indexed
         if isinstance(p, dict):
-            post = p.get("value") if _is_int(p.get("value")) else "?"
+            if "value" not in p:
+                post = "a"       # post-indexed by a register (`[x0], x1`) or a symbol: the parser's dict has no "value"
+            else:
+                post = p["value"] if _is_int(p["value"]) else "?"
     return [canon_operand(o), key, val, off, post]
 
 
 def unsupported(opy):
-    """values outside the model (floats, strings): the register-change comparison is skipped"""
+    """values outside the model (floats, strings): the register-change comparison is skipped
+    (a post-index by a register or a symbol is INSIDE the model: "a", `Isa.Val.absent`)"""
     return any(y[2] == "?" or y[3] == "?" or y[4] == "?" for y in opy)
 
 
@@ -313,7 +317,12 @@ def extra_lines(rng, isa):
             "add %s, %s, #%d" % (xa, xa, abs(k)),
             "fadd %s, %s, %s" % (d[0], d[1], d[2]), "fmla %s, %s, %s" % (v[0], v[1], v[2]), "fadd %s, %s, %s" % (v[0], v[1], v[2]),
             "fmadd %s, %s, %s, %s" % (d[0], d[1], d[2], d[0]), "fmov %s, #1.5" % d[0], "b.ne .L1", "bne .L2", "b .L3", "cbz %s, .L1" % xa,
-            "ld1 {%s, %s}, [%s], #32" % (v[0], v[1], xa), "prfm pldl1keep, [%s, #%d]" % (xa, abs(k)), "csel %s, %s, %s, eq" % (xa, xb, xc),
+            "ld1 {%s, %s}, [%s], #32" % (v[0], v[1], xa),
+            # post-indexed by a register: the SIMD structure loads/stores, and (accepted by the parser) the plain ones
+            "ld1 {%s}, [%s], %s" % (v[0], xa, xc), "st1 {%s}, [%s], %s" % (v[1], xb, xc), "ld1r {%s}, [%s], %s" % (v[2], xa, xd),
+            "ld1 {%s, %s}, [%s], %s" % (v[0], v[1], xa, xa), "ld2 {%s, %s}, [%s], %s" % (v[0], v[1], xd, xc),
+            "st1 {%s}, [%s], %s" % (v[0], xa, xc), "ldr %s, [%s], %s" % (d[0], xa, xc), "str %s, [%s], %s" % (q[0], xb, xc),
+            "stp %s, %s, [%s], %s" % (d[0], d[1], xa, xd), "ldr %s, [%s], sym" % (xb, xa), "prfm pldl1keep, [%s, #%d]" % (xa, abs(k)), "csel %s, %s, %s, eq" % (xa, xb, xc),
             "ldr %s, [%s, :lo12:sym]" % (xb, xa), "unknownop %s" % xa, "unknownop %s, %s" % (xa, xb), "unknownop %s, %s, %s" % (xa, xb, mem),
             "fadd.x %s, %s, %s" % (d[0], d[1], d[2]), "// comment", ".L1:", "nop",
         ]
@@ -401,6 +410,8 @@ def compare(ctx, isa, sem, parser, forms_enc, kernels, tally):
             ctx.count("reg_changes_known")
         if m_chp:
             ctx.count("reg_changes_postindexed")
+            if m_chp.endswith("=~"):
+                ctx.count("reg_changes_postindexed_by_register")      # `{base: None}`: the amount is a register / a symbol
         if norm(m_ch) != norm(rec["ch"]):
             if tally.breaks < 6:
                 ctx.correspondence_break("get_reg_changes", dict(info, model=m_ch, impl=rec["ch"]))
@@ -511,8 +522,9 @@ def run(ctx, syn_forms=None, volume=1.0):
                 [(zz_kernel(rng, isa, zz, rng.randint(2, 6)), "synthetic-operations") for _ in range(max(20, n // 6))], tally)
     ctx.cov["roles_correspondence"] = {k: v for k, v in ctx.counts.items() if k.startswith(("roles_", "reg_changes_", "isa_entries", "graph_"))}
     ctx.log("roles: %d instructions compared (%d with src_dst, %d with hidden operands; register changes: %d known, %d raise, "
-            "%d post-indexed); %d ISA entries tied; %d graphs rebuilt from the parsed operands (%d with edges); %d disagreements"
+            "%d post-indexed, %d of them by a register); %d ISA entries tied; %d graphs rebuilt from the parsed operands (%d with edges); %d disagreements"
             % (ctx.counts.get("roles_instructions", 0), ctx.counts.get("roles_with_src_dst", 0), ctx.counts.get("roles_with_hidden", 0),
                ctx.counts.get("reg_changes_known", 0), ctx.counts.get("reg_changes_raise", 0),
-               ctx.counts.get("reg_changes_postindexed", 0), ctx.counts.get("isa_entries_compared", 0),
+               ctx.counts.get("reg_changes_postindexed", 0), ctx.counts.get("reg_changes_postindexed_by_register", 0),
+               ctx.counts.get("isa_entries_compared", 0),
                ctx.counts.get("graph_kernels", 0), ctx.counts.get("graph_kernels_with_edges", 0), tally.breaks))
